@@ -352,7 +352,8 @@ class Check:
         seen = set()
         nviol = 0
         for shard, tid, idx, c, tr, ev, pos in violations:
-            key = (c, ev.get('op'), ev.get('exc'), ev.get('sym'))
+            key = (c, ev.get('op'), ev.get('exc'), ev.get('sym'),
+                   (ev.get('a') or {}).get('what') if isinstance(ev.get('a'), dict) else None)
             nviol += 1
             if key in seen:
                 continue
